@@ -507,6 +507,43 @@ Definition queried (e : entry) : bool :=
 Definition fetched (cfg : config) (e : entry) : option auth_state :=
   if queried e then fst (fst (query_any (c_authd cfg) (e_now e) (e_oracle e))) else None.
 
+(* ------------------------------------------------------------------ the decision table *)
+(* what the auth gate decides for permission (t, ch), stated without reference to CheckAuth's
+   control flow: None = allowed *)
+Definition decision (cfg : config) (now : Z) (k : conn) (o : oracle) (t ch : str) : option ecode :=
+  if negb (auth_enabled cfg) then None
+  else if negb (has_authorizations k) then Some E_AUTH_FIRST
+  else match in_force cfg now k o with
+       | None => Some E_AUTH_FAILED
+       | Some a => if state_is_allowed a t ch then None else Some E_UNAUTHORIZED
+       end.
+
+(* the checks a PUB/MPUB/DPUB/SUB makes before it reaches the auth gate *)
+Definition presyntax_ok (k : conn) (c : cmd) : bool :=
+  match c with
+  | CSub (t :: ch :: _) => cstate_eqb (k_state k) StInit && negb (k_hb_off k) && is_valid_name t && is_valid_name ch
+  | CPub (t :: _) true => is_valid_name t
+  | CMpub (t :: _) _ => is_valid_name t
+  | CDpub (t :: _ :: _) true true => is_valid_name t
+  | _ => false
+  end.
+
+(* what the command answers and does once the auth gate lets it through *)
+Definition granted_resps (c : cmd) : list resp :=
+  match c with
+  | CMpub _ MpBadBody => [RErr E_BAD_BODY true]
+  | CMpub _ MpBadMessage => [RErr E_BAD_MESSAGE true]
+  | _ => [ROk]
+  end.
+Definition granted_world (c : cmd) : list effect :=
+  match c with
+  | CSub (t :: ch :: _) => [FxGetTopic t; FxGetChannel t ch; FxAddClient t ch]
+  | CPub (t :: _) _ | CDpub (t :: _) _ _ => [FxGetTopic t; FxPut t 1]
+  | CMpub (t :: _) (MpOk n) => [FxGetTopic t; FxPut t n]
+  | CMpub (t :: _) _ => [FxGetTopic t]
+  | _ => []
+  end.
+
 Definition has_denial (rs : list resp) : bool :=
   existsb (fun r => match r with RErr c _ => is_denial c | _ => false end) rs.
 
